@@ -272,10 +272,18 @@ Blank(e) == e.toks = <<>>
 Collapse(acc) ==                                \* cleaner/__init__.py:156-161
     LET kept == SelectSeq(acc, LAMBDA e : ~e.dropped) IN
     IF \A j \in DOMAIN kept : Blank(kept[j]) THEN <<>> ELSE Rev(kept)
+(* A spec whose DECLARATION exempts it from every step (no_redact, exempt    *)
+(* from all six obfuscators, not filterable) is not cleaned: it is stored as *)
+(* it was collected (spec_factory.py:88-116, "Skipping cleaning").  What is  *)
+(* CONFIGURED (patterns, keywords, switches) plays no part in this: a spec   *)
+(* that is subject to a step for which nothing is configured is still a     *)
+(* cleaned spec, and the blank collapse applies to it (C10).                *)
+AllObf == Obfs \cup {"ipv6"}
+Untouched(sp) == sp.nored /\ AllObf \subseteq sp.noobf /\ sp.allow = 0
 
 EndSpec ==
     /\ phase = "spec" /\ cur.i = 0
-    /\ LET o == Collapse(cur.acc) IN
+    /\ LET o == IF Untouched(content[si].sp) THEN Rev(cur.acc) ELSE Collapse(cur.acc) IN
        outs' = Append(outs, [out |-> o, stored |-> o # <<>>, n |-> Len(content[si].lines)])   \* spec_factory.py:104-116
     /\ phase' = "idle"
     /\ UNCHANGED <<cf, ord, run, content, si, cur, db, seen, cnt, report, runs>>
@@ -339,7 +347,8 @@ AllBlankAfter(lines, c, sp) == \A j \in DOMAIN lines : \/ lines[j] = <<>> \/ Mus
                                                        \/ (sp.allow > 0 /\ ~HasKey(lines[j]))
 BlankCollapses ==
     Live => \A s \in DOMAIN outs :
-                AllBlankAfter(content[s].lines, cf, content[s].sp) => (outs[s].out = <<>> /\ ~outs[s].stored)
+                (AllBlankAfter(content[s].lines, cf, content[s].sp) /\ ~Untouched(content[s].sp))
+                    => (outs[s].out = <<>> /\ ~outs[s].stored)
 OneOrder      == \A i, j \in DOMAIN runs : runs[i].ord = runs[j].ord
 Deterministic == \A i, j \in DOMAIN runs : runs[i].outs = runs[j].outs
 
